@@ -234,6 +234,44 @@ fn types_for<H: hbs_lms::HashChain>(alg: Alg, wv: u32, r: &mut Report, rng: &mut
 enum Task {
     Types(Alg, u32),
     Exhaust(Alg, Vec<Level>, SignEntry),
+    /// the last signature of keys far too large to walk: the state just before the end is
+    /// written into the key bytes (total heights 35, 63, 64, 65, 70: the last counter is
+    /// 2^sum-1, or 2^64-1 where the 64-bit counter is narrower than the key's lifetime)
+    ExhaustTall(Alg, Vec<Level>),
+}
+
+fn exhaust_tall(alg: Alg, lv: &[Level], w: &mut Worker, ctx: &Ctx) {
+    let lvs = model::params::levels_to_string(lv);
+    let mut rng = Rng::new(ctx.seed).fork(&format!("c16-tall-{}-{}", alg.name(), lvs));
+    let seed = nonzero_seed(&mut rng, alg.n());
+    let sum = hss::total_height(lv);
+    let last: u64 = if sum >= 64 { u64::MAX } else { (1u64 << sum) - 1 };
+    let blob = hss::make_blob(last, lv, &seed);
+    for entry in [SignEntry::Bytes, SignEntry::TrySign] {
+        let rec = match entry {
+            SignEntry::Bytes => libcall::sign_bytes(alg, &blob, b"c16 last", Cb::Accept, None),
+            e => libcall::sign_key(alg, &blob, b"c16 last", e, None),
+        };
+        let next = match entry {
+            SignEntry::Bytes => rec.cb_args.first().cloned(),
+            _ => rec.key_after.clone(),
+        };
+        w.report.eval();
+        w.report.count("exhaust_tall_checks", 1);
+        match (rec.result.is_ok(), next) {
+            (true, Some(next)) => {
+                if let Some((_, off, pos)) = find_window(&next, &[seed.clone()]) {
+                    w.report.violation(
+                        &format!("C16:exhaust:seed_bytes_survive:{}:{:?}:sum{}", alg.name(), entry, if sum >= 64 { ">=64" } else { "<64" }),
+                        &format!("the key held after the signature at the last counter ({last}) of a key with total height {sum} still contains seed bytes (seed offset {off} at key byte {pos}): {}", model::json::hex(&next)),
+                        J::obj().with("hash", J::s(alg.name())).with("levels", J::s(&lvs)).with("seed", J::hex(&seed)).with("counter", J::Int(last as i128)).with("entry", J::s(&format!("{entry:?}"))).with("private_key", J::hex(&blob)),
+                    );
+                }
+            }
+            _ => w.report.note(&format!("signing at the last counter of {lvs} did not release a signature ({}): nothing to inspect", rec.result.describe())),
+        }
+        w.report.distinct(&format!("exhaust-tall|{}|{}|{:?}", alg.name(), lvs, entry));
+    }
 }
 
 fn exhaust(alg: Alg, lv: &[Level], entry: SignEntry, w: &mut Worker, ctx: &Ctx) {
@@ -307,6 +345,16 @@ pub fn run(ctx: &Ctx) -> Report {
                 tasks.push(Task::Exhaust(alg, levels(&spec), entry));
             }
         }
+        if !alg.is_shake() || !ctx.quick() {
+            let wv = if alg.is_shake() { 2 } else { 4 };
+            tasks.push(Task::ExhaustTall(alg, vec![Level { h: 5, w: wv }; 7]));
+            tasks.push(Task::ExhaustTall(alg, levels(&[(10, wv), (10, wv), (10, wv), (10, wv), (10, wv), (10, wv), (2, 8), (2, 8)])));
+            tasks.push(Task::ExhaustTall(alg, levels(&[(10, wv), (10, wv), (10, wv), (10, wv), (10, wv), (10, wv), (5, wv)])));
+            if alg == Alg::Sha256_128 || !ctx.quick() {
+                // total height 63: the largest key whose lifetime still fits the 64-bit counter
+                tasks.push(Task::ExhaustTall(alg, levels(&[(15, wv), (15, wv), (15, wv), (10, wv), (2, 8), (2, 8), (2, 8), (2, 8)])));
+            }
+        }
         if !ctx.quick() {
             tasks.push(Task::Exhaust(alg, levels(&[(2, 8), (2, 2), (2, 4)]), SignEntry::TrySign));
             tasks.push(Task::Exhaust(alg, levels(&[(5, 2)]), SignEntry::Bytes));
@@ -326,8 +374,9 @@ pub fn run(ctx: &Ctx) -> Report {
             }
         }
         Task::Exhaust(alg, lv, entry) => exhaust(alg, &lv, entry, w, ctx),
+        Task::ExhaustTall(alg, lv) => exhaust_tall(alg, &lv, w, ctx),
     });
-    rep.rule = "per (type, hash, W): a value populated by the real derivation code (random seeds without zero bytes) is (a) zeroized and (b) dropped in place inside a MaybeUninit slot; afterwards every secret field must read zero and no 8-byte window of the snapshotted secrets (seed bytes; all p chain values of an LM-OTS key) may occur anywhere in the raw memory of the value (volatile byte reads, padding included); (b') the value is boxed and the box dropped normally while an interposed libc free() photographs the block at the moment it is released (so the optimiser is free to treat the wipe as it would in a user's program): same scan of the photographed bytes; (c) keys are exhausted through sign / try_sign / try_sign_with_aux and the key bytes held after the last signature are scanned for seed windows; \
+    rep.rule = "per (type, hash, W): a value populated by the real derivation code (random seeds without zero bytes) is (a) zeroized and (b) dropped in place inside a MaybeUninit slot; afterwards every secret field must read zero and no 8-byte window of the snapshotted secrets (seed bytes; all p chain values of an LM-OTS key) may occur anywhere in the raw memory of the value (volatile byte reads, padding included); (b') the value is boxed and the box dropped normally while an interposed libc free() photographs the block at the moment it is released (so the optimiser is free to treat the wipe as it would in a user's program): same scan of the photographed bytes; (c) keys are exhausted through sign / try_sign / try_sign_with_aux and the key bytes held after the last signature are scanned for seed windows; keys far too large to walk (total height 35, 64, 65) are put into their last state (counter 2^sum-1, or 2^64-1) and sign there; \
                 distinct_nontrivial = distinct (type, hash, W, mode in {zeroize, drop, heap-drop, exhaust})"
         .into();
     if ctx.miri {
